@@ -430,6 +430,34 @@ def run(prog, rep, tier):
     if n_sites < 2:
         raise CheckerError("R9.5: only %d chrono conversion sites found in scope (expected at least 2)" % n_sites)
 
+    # ------------------------------------------------------------ R9.10 lifts: the journal worker reads every entry of every journal it is given
+    # "Each entry ... is printed exactly once": no shortcut from the file's modification time decides
+    # whether the journal is read (C03 R3.9 at the journal sites), the worker's entry loop ends only on
+    # its reader's own Done/Err (C06 R6.7) and makes progress (C07 R7.12).
+    import contextlib as _c9, io as _i9
+    from common import Report as _R9
+    R910 = rep.rule("R9.10", "the journal worker reads the whole journal: no mtime shortcut (C03 R3.9), loop ends only on Done/Err (C06 R6.7, C07 R7.12)")
+    n910 = 0
+    for modname, pid_, rids in (("c03", "C03", ("R3.9",)), ("c06", "C06", ("R6.7",)), ("c07", "C07", ("R7.12",))):
+        mod_ = __import__(modname)
+        sub_ = _R9(pid_, "quick", dict(rep.meta))
+        sub_.finish = lambda *a, **k: 0
+        try:
+            with _c9.redirect_stdout(_i9.StringIO()):
+                mod_.run(prog, sub_, "quick")
+        except CheckerError:
+            pass    # whatever that module could still decide is used; its own check reports the lost anchor
+        for (rid_, key_, what_, det_) in sub_.violations:
+            if rid_ in rids and "journal" in key_.lower():
+                rep.violation(R910, key_.split("|", 1)[1] + "|" + rid_, what_)
+        for rid_ in rids:
+            for k_ in sorted(sub_.rules.get(rid_, {}).get("keys", ())):
+                if "journal" in k_.lower():
+                    n910 += 1
+                    rep.examined(R910, "%s|%s" % (rid_, k_), sample={"rule": rid_, "instance": k_})
+    if n910 < 2:
+        raise CheckerError("R9.10: only %d journal instances among the lifted rules" % n910)
+
     return rep.finish(
         "Static necessary-condition check of the journal reader: the entry instant is the journal receive time (constant override; the window "
         "test value flows from sd_journal_get_realtime_usec) and -a/-b are converted as instants; libsystemd is only asked to seek in analyze "
